@@ -78,6 +78,9 @@ type Service struct {
 	handlers map[string]map[string]handler
 
 	closedTopics map[string]bool
+	// closedMu guards closedTopics. Handlers collect events themselves (publish, aggregate),
+	// so Collect must not need mu, which is held while waiting for handlers to finish.
+	closedMu sync.RWMutex
 
 	inhibitorLookup *alert.InhibitorLookup
 
@@ -473,9 +476,9 @@ func (s *Service) setTopicHandler(topic, id string, h handler) {
 }
 
 func (s *Service) Collect(event alert.Event) error {
-	s.mu.RLock()
+	s.closedMu.RLock()
 	closed := s.closedTopics[event.Topic]
-	s.mu.RUnlock()
+	s.closedMu.RUnlock()
 	if closed {
 		// Restore topic
 		if err := s.restoreClosedTopic(event.Topic); err != nil {
@@ -540,7 +543,10 @@ func (s *Service) clearHistory(event *alert.Event) error {
 func (s *Service) restoreClosedTopic(topic string) error {
 	s.mu.Lock()
 	defer s.mu.Unlock()
-	if !s.closedTopics[topic] {
+	s.closedMu.RLock()
+	closed := s.closedTopics[topic]
+	s.closedMu.RUnlock()
+	if !closed {
 		// Topic already restored
 		return nil
 	}
@@ -548,7 +554,9 @@ func (s *Service) restoreClosedTopic(topic string) error {
 		return err
 	}
 	// Topic no longer closed
+	s.closedMu.Lock()
 	delete(s.closedTopics, topic)
+	s.closedMu.Unlock()
 	return nil
 }
 
@@ -598,9 +606,11 @@ func (s *Service) CloseTopic(topic string) error {
 	s.mu.Lock()
 	defer s.mu.Unlock()
 
+	s.closedMu.Lock()
+	s.closedTopics[topic] = true
+	s.closedMu.Unlock()
 	// Delete running topic
 	s.topics.DeleteTopic(topic)
-	s.closedTopics[topic] = true
 
 	return nil
 }
@@ -608,7 +618,9 @@ func (s *Service) CloseTopic(topic string) error {
 func (s *Service) DeleteTopic(topic string) error {
 	s.mu.Lock()
 	defer s.mu.Unlock()
+	s.closedMu.Lock()
 	delete(s.closedTopics, topic)
+	s.closedMu.Unlock()
 	s.topics.DeleteTopic(topic)
 	err := s.topicsStore.Update(func(tx storage.Tx) error {
 		return tx.Delete(topic)
